@@ -144,6 +144,10 @@ func ctxToHeaders(ctx freighter.Context) http.Header {
 type clientStream[RQ, RS freighter.Payload] struct {
 	streamCore[RS, RQ]
 	sendClosed bool
+	// closed is set once the underlying connection has been shut down after the
+	// terminal result was received, so that later calls to Receive keep returning
+	// that result instead of shutting down again.
+	closed bool
 }
 
 // Send implements the freighter.ClientStream interface.
@@ -161,6 +165,10 @@ func (s *clientStream[RQ, RS]) Send(req RQ) error {
 func (s *clientStream[RQ, RS]) Receive() (RS, error) {
 	pld, err := s.streamCore.Receive()
 	if err != nil {
+		if s.closed {
+			return pld, err
+		}
+		s.closed = true
 		return pld, errors.Combine(err, s.close())
 	}
 	return pld, nil
